@@ -140,6 +140,21 @@ func (m *LedgerMonitor) Check(w *World, rep *verifutil.Report, b *types.Block, e
 		allow.Add(allow, new(big.Int).Mul(per, new(big.Int).SetUint64(b.Height()-epochBlockBefore)))
 	}
 	rep.Count("ledger_checks", 1)
+	if b.Header.Flags().HasFlag(types.ValidationFinished) && allow.Sign() > 0 && delta.Sign() > 0 {
+		// how much of the epoch pool was paid out: a bound violation by x% is only visible when
+		// the payout ratio exceeds 1-x
+		ratio := new(big.Int).Div(new(big.Int).Mul(delta, big.NewInt(100)), allow).Int64()
+		switch {
+		case ratio >= 97:
+			rep.Count("epoch_payout_ratio>=97%", 1)
+		case ratio >= 90:
+			rep.Count("epoch_payout_ratio>=90%", 1)
+		case ratio >= 70:
+			rep.Count("epoch_payout_ratio>=70%", 1)
+		default:
+			rep.Count("epoch_payout_ratio<70%", 1)
+		}
+	}
 	if delta.Sign() != 0 {
 		rep.Count("ledger_nonzero_delta", 1)
 	}
